@@ -101,7 +101,9 @@ def run(ctx):
     q = ctx.tier == "quick"
     ctx.rule = ("option vectors (block size x block checksum x content checksum x size x level x concurrency x legacy, every value of "
                 "every option, seeded pairing) x inputs {empty, 1 byte, the 4 bytes whose XXH32 is 0, small text / random / low-entropy, "
-                "B-1, B, B+1, 2B+3, incompressible B+17, legacy 8 MiB+1 and incompressible 8 MiB+5} x {Write, ReadFrom, Write+Flush}. "
+                "B-1, B, B+1, 2B+3, incompressible B+17, legacy 8 MiB+1 and incompressible 8 MiB+5} x {Write, ReadFrom, Write+Flush}; the compressing "
+                "reader as emitter: options x inputs {0, 1, 40, 70, 300, B, B+1, 2B+3} x read patterns x {fresh, reused after a complete stream, "
+                "reused after an abandoned stream}. "
                 "distinct = distinct (options, input, history) cases with a non-empty input")
     b = vlib.build_harness()
     d = vlib.scratch("c09")
@@ -143,6 +145,8 @@ def run(ctx):
     big["ref"]["blocks"] = big["ref"]["blocks"][:3]
     ctx.sample({"emit_event_field_level": big})
 
+    creader_frames(ctx, b, d)
+
     # ref-conformance: ref.ParseFrame vs LZ4Frame!Parse on the small frames and mutants of them
     rnd = random.Random(ctx.seed)
     rc = []
@@ -179,6 +183,81 @@ def run(ctx):
                         "inputs up to 2 blocks + 3 bytes (8 MiB + 5 for legacy)"]
 
 
+def creader_cases(ctx):
+    """the compressing reader as the emitter: options x inputs x read patterns, fresh and reused (earlier stream read to the
+    end or abandoned with bytes parked in the overflow buffer)"""
+    q = ctx.tier == "quick"
+    rnd = random.Random(ctx.seed * 37 + 99)
+    cases = []
+    for i in range(8 if q else 120):
+        o = {"code": 4 + (i % 2), "bcs": i % 2 == 0, "ccs": i % 3 != 1, "level": [0, 1, 3, 9][i % 4], "conc": 1, "legacy": False}
+        B = fl.BLOCK[o["code"]]
+        for n, fam in ((0, "text"), (1, "text"), (40, "text"), (70, "random"), (300, "lowentropy"), (B, "mixed"), (B + 1, "text"), (2 * B + 3, "blockmix")):
+            if q and o["code"] == 5 and n > B + 1:
+                continue
+            oo = dict(o)
+            if i % 3 == 0 and n:
+                oo["size"] = n
+            inp = fl.input_for(rnd, n, fam)
+            inp["p1"] = B
+            for reuse in (0, 1, 2):
+                c = {"id": len(cases) + 1, "input": inp, "opts": oo, "reads": rnd.choice([[1 << 20], [4096], [7, 300], [1], [40]] if n < 5000 else [[1 << 20], [4096], [70000]])}
+                if reuse == 1:
+                    c.update(preCode=rnd.choice([4, 5, 6]), preLen=rnd.choice([0, 10, 300000]))
+                elif reuse == 2:
+                    c.update(preCode=rnd.choice([4, 5, 6]), preLen=rnd.choice([300, 70000, 300000]), preCalls=rnd.choice([1, 2, 5]), preBuf=rnd.choice([1, 7, 16, 40]))
+                cases.append(c)
+    return cases
+
+
+def creader_frames(ctx, b, d):
+    from checks import c18
+    cases = creader_cases(ctx)
+    recs, faults = fl.shard_run(b, "cr-run", cases, d, "cr")
+    if faults:
+        raise vlib.MachineryFault("cr-run failed: %s" % faults[0]["stderr"][-800:])
+    ctx.evaluations += len(recs)
+    ctx.distinct += len(cases)
+    tp = os.path.join(d, "cr-emit.ndjson")
+    by_id = {c["id"]: c for c in cases}
+    with open(tp, "w") as f:
+        for c in cases:
+            r = recs[c["id"]]
+            if r["hung"] or r["panicked"]:
+                confirm_creader(ctx, b, d, c)
+                continue
+            f.write(json.dumps(c18.emit_event(r), separators=(",", ":")) + "\n")
+    acc, rej = vlib.validate_trace(ctx, "LZ4Frame_Trace", tp, cfg="LZ4Frame_Trace_C09", timeout=1800, max_reject=6)
+    for rj in rej:
+        confirm_creader(ctx, b, d, by_id[json.loads(rj["line"])["case"]])
+    ctx.extra["compressing_reader_frames"] = len(cases)
+
+
+def confirm_creader(ctx, b, d, case):
+    from checks import c18
+    recs, faults = fl.shard_run(b, "cr-run", [case], d, "cragain", nshards=1)
+    if faults:
+        raise vlib.MachineryFault("cr-run failed on re-execution")
+    r = recs[case["id"]]
+    bad = r["hung"] or bool(r["panicked"])
+    if not bad:
+        sub = vlib.Ctx(ctx.prop, ctx.tier, ctx.seed)
+        tp = os.path.join(d, "cragain-emit.ndjson")
+        vlib.write_ndjson(tp, [c18.emit_event(r)])
+        acc, rej = vlib.validate_trace(sub, "LZ4Frame_Trace", tp, cfg="LZ4Frame_Trace_C09", shards=1)
+        bad = bool(rej)
+    if not bad:
+        ctx.unreproducible("compressing reader case %s" % json.dumps(case)[:300])
+        return
+    reuse = "abandoned" if case.get("preCalls") else ("reused" if case.get("preCode") else "fresh")
+    st = "hang-or-panic" if (r["hung"] or r["panicked"]) else r["ref"]["status"]
+    key = "C09:compressing-reader:%s:strict-parse=%s" % (reuse, st)
+    slim = {k: v for k, v in r.items() if k not in ("calls", "bytes", "input")}
+    slim["ref"] = dict(slim["ref"], blocks=slim["ref"]["blocks"][:8])
+    ctx.violation(key, "frame emitted by the compressing reader is not accepted by the frame specification: %s" % key,
+                  {"kind": "c09cr", "case": case, "observed": slim})
+
+
 def confirm(ctx, b, d, case, key):
     """Re-execute one case and judge the fresh record with both trace specifications."""
     recs, faults = fl.shard_run(b, "frame-write", [case], d, "again", nshards=1)
@@ -203,6 +282,9 @@ def confirm(ctx, b, d, case, key):
 
 def replay(ctx, path):
     rp = json.load(open(path))
+    if rp.get("kind") == "c09cr":
+        confirm_creader(ctx, vlib.build_harness(), vlib.scratch("c09r"), rp["case"])
+        return
     b = vlib.build_harness()
     d = vlib.scratch("c09r")
     case = rp["case"]
